@@ -6,6 +6,7 @@ import (
 	"net"
 	"runtime"
 	"runtime/debug"
+	"strings"
 	"testing"
 
 	stun "github.com/pion/stun/v3"
@@ -176,6 +177,22 @@ func c20Measure(s c20Shape, warm string, only string) (allocating []string, nops
 	}
 	if key != nil {
 		ops = append(ops, op{"MessageIntegrity.Check", func() { _ = key.Check(m) }})
+		wrong := stun.MessageIntegrity("not the key of this message")
+		ops = append(ops, op{"MessageIntegrity.Check/mismatch", func() { _ = wrong.Check(m) }})
+	}
+	if len(s.Kinds) >= 2 {
+		// forward the message without its first attribute, re-encoding in place: the values handed to Add are
+		// views into the message's own buffer
+		own := make([]stun.RawAttribute, 0, 64)
+		ops = append(ops, op{"Add(values that are views into the message itself)", func() {
+			own = append(own[:0], m.Attributes...)
+			m.Reset()
+			m.WriteHeader()
+			for _, a := range own[1:] {
+				m.Add(a.Type, a.Value)
+			}
+			_, _ = m.Write(raw)
+		}})
 	}
 	for _, x := range s.Suffix {
 		if x == "FP" {
@@ -206,6 +223,15 @@ func c20Measure(s c20Shape, warm string, only string) (allocating []string, nops
 	return
 }
 
+// c20Key: without spare capacity both the matching and the mismatching integrity check hit the same call site
+// (the HMAC scratch behind the message), so they share one key there.
+func c20Key(name, warm string) string {
+	if warm == "same" {
+		return "allocates/" + strings.TrimSuffix(name, "/mismatch") + "/only-without-spare-capacity"
+	}
+	return "allocates/" + name
+}
+
 func init() {
 	registry["C20"] = propImpl{
 		Run: func(c *Ctx) {
@@ -234,10 +260,7 @@ func init() {
 					}
 					for _, name := range al {
 						c.Outcome("allocates/" + warm)
-						key := "allocates/" + name
-						if warm == "same" {
-							key += "/only-without-spare-capacity"
-						}
+						key := c20Key(name, warm)
 						ss := s
 						ss.Op, ss.Warm = name, warm
 						c.Violation(key, fmt.Sprintf("%s allocates on every call in steady state (warm-up: %s) for message [%v]", name, warm, s), ss)
@@ -283,10 +306,7 @@ func init() {
 			}
 			al, _ := c20Measure(s, s.Warm, s.Op)
 			for _, name := range al {
-				key := "allocates/" + name
-				if s.Warm == "same" {
-					key += "/only-without-spare-capacity"
-				}
+				key := c20Key(name, s.Warm)
 				c.Violation(key, name+" allocates", s)
 			}
 		},
